@@ -50,8 +50,12 @@ def hash_contraction_b(inputs, output, size_dict):
     # then sort edges by each's incidence nodes
     canonical_edges = sortedtuple(map(sortedtuple, edges.values()))
 
+    # n.b. index-free (scalar) inputs leave no trace in the incidence lists,
+    # so the number of inputs needs to be part of the hash as well
     return hashlib.sha1(
-        pickle.dumps((canonical_edges, sortedtuple(size_dict.items())))
+        pickle.dumps(
+            (canonical_edges, sortedtuple(size_dict.items()), len(inputs))
+        )
     ).hexdigest()
 
 
